@@ -333,7 +333,9 @@ theorem push_LR (ext : Ext) (he : ExtOK ext) (hf : FloatOK) : ∀ (x : SVal) (b 
   | .str x, b, b', _, h, hp => by
     rw [push, ctx_ok] at h; exact pushScalar_LR ext he hf _ (.str x) b' trivial h hp
   | .unitStruct x, b, b', _, h, hp => by
-    rw [push, ctx_ok] at h; exact pushScalar_LR ext he hf _ (.unitStruct x) b' trivial h hp
+    cases b with
+    | unknownVariant p => simp [push, ctx_ok, fail] at h
+    | _ => simp only [push] at h; exact pushNone_LR _ b' h hp
 
 theorem pushElems_LR (ext : Ext) (he : ExtOK ext) (hf : FloatOK) :
     ∀ (xs : SVals) (large : Bool) (el : B) (offs : List Int) (r : B × List Int), SValsOK xs →
